@@ -23,6 +23,9 @@ ASSUMPTIONS = C.COMMON_ASSUMPTIONS + [
 TRUSTED = C.COMMON_TRUSTED
 
 
+TRANSLATE_FALLBACK = C.TRANSLATE_FALLBACK
+
+
 def translate():
     return C.translate()[0]
 
